@@ -1988,9 +1988,9 @@ class WriteMemoryByAddressResponse(
         address_and_length_format_identifier = pdu[1]
         addr_len, size_len = address_and_size_length(address_and_length_format_identifier)
 
-        if len(pdu) < 2 + addr_len + size_len:
+        if len(pdu) != 2 + addr_len + size_len:
             raise ValueError(
-                "The PDU is smaller as specified by the addressAndLengthFormatIdentifier"
+                "The addressAndLengthFormatIdentifier is incompatible with the PDU size"
             )
 
         memory_address = from_bytes(pdu[2 : 2 + addr_len])
